@@ -29,7 +29,8 @@ RULE = ("(A) ALL reference graphs over 3 nodes (root = memento function, the oth
         '; rounds 10-11: four-node graphs with the root in one package and the others in another (xpkg4)'
         '; round 13: memento functions behind object-style decorators, a four-package program under six hash seeds, a global that answers every attribute'
         '; round 14: hidden callees that have a namesake among the names the caller mentions (two modules, four spellings)'
-        '; round 15: the hidden call made with the caller behind five chains of modifiers')
+        '; round 15: the hidden call made with the caller behind five chains of modifiers'
+        '; round 16: a hidden call back to a function that is running further up the stack')
 ASSUMPTIONS = ["builtins mentioned in a body show up as undefined-symbol rules without hash contribution; the oracle "
                "ignores non-memento rules", "a function never counts as its own dependency"]
 TIMEOUT = 900
